@@ -187,7 +187,9 @@ def run(ctx):
     ctx.ob("R4", "NodeListOperator#snapshot", has_ctx,
            what="node lists taken from index / range / label lookups are emitted by NodeListOperator without any transaction context: "
                 "the access path returns candidates the session's snapshot must not see", where=nl["file"])
-
+    # ---- R7 zone-map predicates say 'no' only on a definite order (rules/c14.py zone_map_definite_no)
+    from .c14 import zone_map_definite_no
+    zone_map_definite_no(ctx, ctx.program(), "R7")
 
 def variant_pairs(P, fn):
     """(variant of arg A, variant of arg B) pairs under which fn does real work (a call, comparison or cast)"""
